@@ -18,10 +18,11 @@ type C12BCase struct {
 	TimeoutUs int  `json:"timeout_us"` // microseconds; 0 = wait forever
 	InMulti   bool `json:"in_multi"`
 	Again     bool `json:"again"` // block a second time on the same connection afterwards
+	SelectDB  int  `json:"select_db"` // inside MULTI: a SELECT of this database is queued in front of the blocking command (0 = none)
 }
 
 func c12BGen(t *rapid.T) C12BCase {
-	c := C12BCase{Cmd: rapid.IntRange(0, 4).Draw(t, "cmd"), InMulti: rapid.IntRange(0, 3).Draw(t, "multi") == 0, Again: rapid.Bool().Draw(t, "again")}
+	c := C12BCase{Cmd: rapid.IntRange(0, 4).Draw(t, "cmd"), InMulti: rapid.IntRange(0, 3).Draw(t, "multi") == 0, Again: rapid.Bool().Draw(t, "again"), SelectDB: pick(t, "seldb", 0, 0, 3, 9)}
 	switch rapid.IntRange(0, 5).Draw(t, "tkind") {
 	case 0:
 		c.TimeoutUs = 0
@@ -59,7 +60,12 @@ func c12BRun(c C12BCase, st *kit.Stats) error {
 	for r := 0; r < rounds; r++ {
 		if c.InMulti {
 			// inside MULTI/EXEC blocking commands never block
-			for _, a := range [][]string{{"MULTI"}, argv, {"PING"}} {
+			queue := [][]string{{"MULTI"}, argv, {"PING"}}
+			if c.SelectDB != 0 {
+				// the blocking command runs in another database than the one the transaction started in
+				queue = [][]string{{"MULTI"}, {"SELECT", strconv.Itoa(c.SelectDB)}, argv, {"SELECT", "0"}, {"PING"}}
+			}
+			for _, a := range queue {
 				if v, err := conn.Do(a...); err != nil || v.IsErr() {
 					return fmt.Errorf("%v: %v %v", a, v, err)
 				}
@@ -70,8 +76,12 @@ func c12BRun(c C12BCase, st *kit.Stats) error {
 			if err != nil {
 				return fmt.Errorf("EXEC containing %v on an empty list did not return within 5 s: %v", argv, err)
 			}
-			if v.K != kit.KArr || len(v.A) != 2 || v.A[0].K != kit.KNil {
-				return fmt.Errorf("EXEC containing %v on an empty list replied %s, expected [nil PONG]", argv, v)
+			blk := 0
+			if c.SelectDB != 0 {
+				blk = 1
+			}
+			if v.K != kit.KArr || len(v.A) != len(queue)-1 || v.A[blk].K != kit.KNil {
+				return fmt.Errorf("EXEC of %v on empty lists replied %s, expected nil for the blocking command", queue[1:], v)
 			}
 			if d > 2*time.Second {
 				return fmt.Errorf("EXEC containing %v took %v: the blocking command blocked inside MULTI", argv, d)
